@@ -127,7 +127,7 @@ func runDiskCrash(r *simkit.Run, w *World, cfg NodeCfg) {
 		cacheMax:  []uint64{0, 4000, 100 << 20}[c.Intn(3, "ffldb-cache")],
 		flushSecs: []uint32{300, 1, 60}[c.Intn(3, "ffldb-flush-secs")],
 		maxFile:   []uint32{2000, 20000, 512 << 20}[c.Intn(3, "ffldb-file-size")]}
-	defer func() { ffldb.SetVerifFS(nil) }()
+	defer func() { ffldb.SetVerifFS(nil); ffldb.VerifReapLeaked() }()
 	ffldb.VerifResetCounters()
 	mode := simfs.ProcessCrash
 	modeName := "crash_process"
